@@ -307,6 +307,9 @@ def evaluate(case, lib, fn=None):
         # members outside the stated schema: a version of the library may give them a meaning and refuse; the statements only say
         # when a document must NOT be accepted
         model = models.Verdict(models.GREY, None, (model.why or "") + " (extra members present: acceptance not demanded)")
+    elif case.get("extras") and model.v == models.REJECT:
+        # ... and a version that gives such a member a format may name its own reason first: which error is not judged
+        model = models.Verdict(models.REJECT, None, model.why, model.counted, model.grey_counted)
     mutated = boundary.fingerprint([role, untrusted, trusted]) != before
     return model, failed, out, mutated
 
